@@ -89,6 +89,7 @@ impl Clone for LinkedHashSet<String> {
 //@@ item src/http/header.rs :: struct Header
 //@@ item src/api/header_filter.rs :: struct HeaderFilter
 //@@ include ../common/hdr_spec.rs
+pub assume_specification [str::to_lowercase] (s: &str) -> (r: std::string::String) ensures r@ == spec_lower(s@);
 // BodyFilter (src/api/body_filter.rs) is only moved/cloned here: opaque
 #[verifier::external_body]
 pub struct BodyFilter { x: u8 }
